@@ -100,6 +100,11 @@ pub const PROSE: [&str; 56] = [
 ];
 
 /// comments appended to a statement on the same line (0 = none)
+/// which pool entries are prose (they parse, alone, to prose elements only) ON THE PINNED TREE. Fixed here rather than re-derived at run
+/// time: a change that makes one of them read as code would otherwise remove it from the documents and hide itself. An entry listed here
+/// is always woven in, and the metamorphic oracle judges what it does.
+pub const PROSE_BASELINE: [bool; 56] = [true, true, true, false, true, true, true, true, true, true, true, true, true, true, true, true, true, true, true, true, true, true, true, true, false, true, true, true, true, true, true, true, true, true, false, true, true, true, true, true, true, true, true, true, true, true, true, true, true, true, true, true, true, true, true, true];
+
 pub const TRAILING: [&str; 6] = ["", " -- plain words", " -- reset; v1 = 9", " // slash; v2 = 8", " -- note: v3 = 7", " -- a\\_b x"];
 
 impl Prop for C10 {
@@ -119,13 +124,12 @@ impl Prop for C10 {
      include case variants left/Left/LEFT and `Disabled`), their statements interleaved in document order, each placed as bare code or in \
      a fence, with prose elements from a 56-element pool in between (paragraphs incl. code-looking ones, lists, quotes, thematic break, \
      markdown table, python / plain / tilde / disabled / capitalised-tag fences containing conflicting definitions, `--` and `//` comments (also with code-looking text, `;` separators and inline markup, stand-alone and trailing a statement), section \
-     headers) and an optional title; optionally an erroneous last statement in one named fence. Prose candidates are pre-screened (must \
-     parse alone as prose only). Oracle (metamorphic): main snapshot == interpreting the unnamed program's code alone; the set of \
+     headers) and an optional title; optionally an erroneous last statement in one named fence. Which pool entries are prose is fixed from the pinned tree (PROSE_BASELINE: 53 of 56 parse alone to prose elements only), not re-derived at run time. Oracle (metamorphic): main snapshot == interpreting the unnamed program's code alone; the set of \
      sub-interpreter snapshots == the set of per-name programs interpreted alone. Non-trivial = ≥2 prose elements next to code incl. a \
      code-looking one, or ≥2 fence names sharing a variable name; distinct key = (#programs, name pair, element kinds multiset, error?)."
   }
   fn assumptions() -> Vec<String> {
-    vec!["prose that does not parse as prose on its own is never used (counted as prose_rejected)".into(),
+    vec!["a pool entry is used as prose iff it parses alone to prose elements only on the pinned tree (PROSE_BASELINE, 53 of 56); the others are never used (counted as prose_rejected)".into(),
          "documents that fail to parse are discarded and counted; above 5% this is reported as a harness error".into(),
          "single-newline separation is generated and recorded but carries no demand (adjacent lines may join one paragraph)".into(),
          "only core-class statements (no user functions: named fences share the function table by design)".into()]
@@ -140,7 +144,10 @@ fn program_lines(choices: &[u32]) -> Vec<String> {
   l
 }
 
-fn prose_ok(text: &str) -> bool {
+fn prose_ok(text: &str) -> bool { PROSE.iter().position(|p| *p == text).map(|i| PROSE_BASELINE[i]).unwrap_or(false) }
+
+/// the dynamic screen (the element parsed alone yields prose elements only); used to learn PROSE_BASELINE and as a label
+pub fn prose_screen(text: &str) -> bool {
   static CACHE: std::sync::OnceLock<Vec<bool>> = std::sync::OnceLock::new();
   let cache = CACHE.get_or_init(|| PROSE.iter().map(|p| match parse_src(p) { Parsed::Prose(t) => element_kinds(&t).iter().all(|k| !k.starts_with("MechCode") && !k.starts_with("FencedMechCode(ns=0,disabled=false") && !k.starts_with("FencedMechCode(ns=named,disabled=false") && k != "Error"), Parsed::Code(t, _) => comment_only(&t), _ => false }).collect());
   PROSE.iter().position(|p| *p == text).map(|i| cache[i]).unwrap_or(false)
